@@ -208,6 +208,51 @@ pub fn jwk(cex: &Value) -> Result<String, String> {
         }
       }
     }
+    // the projection is idempotent for every key_ops list - single operations, both halves of a pair, mixed lists, repeats - on
+    // private and on already-public keys
+    {
+      use JwkOperation::*;
+      let lists: Vec<Vec<JwkOperation>> = vec![
+        vec![Sign], vec![Verify], vec![Sign, Verify], vec![Verify, Sign], vec![Encrypt, Decrypt], vec![WrapKey, UnwrapKey], vec![DeriveKey, DeriveBits],
+        vec![Sign, Verify, Encrypt], vec![Sign, Sign], vec![], vec![Decrypt], vec![UnwrapKey, Sign],
+      ];
+      for ops in lists {
+        for private in [true, false] {
+          let mut key = Jwk::from_params(JwkParamsOkp { crv: "Ed25519".into(), x: "eA".into(), d: if private { Some("ZA".into()) } else { None } });
+          key.set_key_ops(ops.iter().copied());
+          let Some(p1) = key.to_public() else {
+            log.push(format!("[idempotent] key with key_ops {ops:?} has no projection"));
+            continue;
+          };
+          let p2 = p1.to_public();
+          if p2.as_ref() != Some(&p1) {
+            log.push(format!("[idempotent] key_ops {ops:?} (private key: {private}): first projection {:?}, second {:?}", p1.key_ops(), p2.as_ref().and_then(|x| x.key_ops())));
+          }
+          let p3 = p2.and_then(|x| x.to_public());
+          if p3.as_ref() != Some(&p1) {
+            log.push(format!("[idempotent] key_ops {ops:?} (private key: {private}): third projection differs from the first"));
+          }
+        }
+      }
+    }
+    // the guard against private key material sits in the constructor every route ends in: also a direct call of from_builder
+    {
+      use identity_did::DID as _;
+      use identity_verification::{MethodBuilder, MethodData, MethodType, VerificationMethod};
+      let did = CoreDID::parse("did:example:1").unwrap();
+      for (name, jwk, private) in [
+        ("OKP private", Jwk::from_params(JwkParamsOkp { crv: "Ed25519".into(), x: "eA".into(), d: Some("ZA".into()) }), true),
+        ("RSA partial private", Jwk::from_params(rsa(4)), true),
+        ("OKP public", Jwk::from_params(JwkParamsOkp { crv: "Ed25519".into(), x: "eA".into(), d: None }), false),
+      ] {
+        let b = || MethodBuilder::default().id(did.to_url().join("#k").unwrap()).controller(did.clone()).type_(MethodType::JSON_WEB_KEY_2020).data(MethodData::PublicKeyJwk(jwk.clone()));
+        let direct = VerificationMethod::from_builder(b()).is_ok();
+        let built = b().build().is_ok();
+        if direct == private || built == private {
+          log.push(format!("[method] {name}: from_builder accepted = {direct}, build accepted = {built}"));
+        }
+      }
+    }
     let p = k.to_public().unwrap();
     if p.alg() != Some("EdDSA") || p.kid() != Some("kid") || p.use_() != Some(JwkUse::Signature) {
       log.push("[public] optional members not carried into the projection".into());
